@@ -111,7 +111,8 @@ def c17_case(draw):
     rest = list(draw(st.permutations(rest)))
     # a bare name must not pick up lines of deeper levels that would make the expansion cyclic: names of
     # alternative lines never occur below themselves because every level draws from fresh `done` names only
-    return {"items": head + rest, "layout": draw(st.one_of(st.just([]), st.lists(st.integers(0, 11), min_size=2, max_size=16))), "crlf": draw(st.integers(0, 5)) == 0}
+    return {"items": head + rest, "layout": draw(st.one_of(st.just([]), st.lists(st.integers(0, 11), min_size=2, max_size=16))), "crlf": draw(st.integers(0, 5)) == 0,
+            "nofinal": draw(st.sampled_from((False, False, True)))}
 
 
 def acyclic(a):
